@@ -4,6 +4,7 @@ package main
 
 import (
 	"bufio"
+	"encoding/json"
 	"fmt"
 	"os"
 	"os/exec"
@@ -19,7 +20,8 @@ func main() {
 	}
 	switch os.Args[1] {
 	case "factgen":
-		fact.Main(os.Args[2:], "par", "Par", genPar)
+		// two generated modules, so that C09 (par.Work) and C10 (par.Cache) do not share facts
+		factgenBoth(os.Args[2:])
 	case "corr":
 		corr.Main(os.Args[2:], runPar)
 	case "trace":
@@ -65,4 +67,39 @@ func main() {
 		fmt.Fprintln(os.Stderr, "usage: par factgen|corr|trace [flags]")
 		os.Exit(2)
 	}
+}
+
+// factgenBoth runs fact.Main once per generated module and merges the two JSON reports.
+func factgenBoth(args []string) {
+	type report struct {
+		Groups map[string]json.RawMessage `json:"groups"`
+	}
+	merged := report{Groups: map[string]json.RawMessage{}}
+	run := func(group, module string, fn func(g *fact.Gen)) {
+		tmp, err := os.CreateTemp("", "par-factgen-")
+		if err != nil {
+			fmt.Fprintln(os.Stderr, err)
+			os.Exit(2)
+		}
+		defer os.Remove(tmp.Name())
+		old := os.Stdout
+		os.Stdout = tmp
+		fact.Main(args, group, module, fn)
+		os.Stdout = old
+		tmp.Close()
+		data, _ := os.ReadFile(tmp.Name())
+		var r report
+		if err := json.Unmarshal(data, &r); err != nil {
+			fmt.Fprintln(os.Stderr, "factgen report unreadable:", err)
+			os.Exit(2)
+		}
+		for k, v := range r.Groups {
+			merged.Groups[k] = v
+		}
+	}
+	run("parwork", "ParWork", genParWork)
+	run("parcache", "ParCache", genParCache)
+	data, _ := json.MarshalIndent(merged, "", " ")
+	os.Stdout.Write(data)
+	fmt.Println()
 }
